@@ -233,6 +233,8 @@ func (u *Universe) message(st Step) *shmsg.Message {
 		return shmsg.NewBatchConfig(u.U64(v.Act), u.addrs(v.As, false), u.U64(v.Thr), u.U64(v.Idx))
 	case "seen":
 		return shmsg.NewBlockSeen(u.U64(v.Act))
+	case "dkgres":
+		return shmsg.NewDKGResult(u.U64(v.Eon), false)
 	case "checkin":
 		return shmsg.NewCheckIn(newDet("valkey", u.Seed).bytes(32), u.ECIES(v.Key))
 	case "msg":
